@@ -628,6 +628,20 @@ class CancelScope(BaseCancelScope):
 
         return should_retry
 
+    def _restart_cancellation(self) -> None:
+        """
+        Restart the cancellation effort in this scope or, failing that, in the closest
+        directly cancelled parent scope, if its delivery loop has gone idle.
+
+        This must be called when a task is added to an existing scope.
+
+        """
+        if self._cancel_called:
+            if self._cancel_handle is None:
+                self._deliver_cancellation(self)
+        elif not self._shield:
+            self._restart_cancellation_in_parent()
+
     def _restart_cancellation_in_parent(self) -> None:
         """
         Restart the cancellation effort in the closest directly cancelled parent scope.
@@ -907,6 +921,7 @@ class TaskGroup(abc.TaskGroup):
             parent_id=parent_id, cancel_scope=self.cancel_scope
         )
         self.cancel_scope._tasks.add(task)
+        self.cancel_scope._restart_cancellation()
         self._tasks.add(task)
         if sys.version_info >= (3, 14) and self.cancel_scope._host_task is not None:
             asyncio.future_add_to_awaited_by(task, self.cancel_scope._host_task)
